@@ -46,7 +46,7 @@ FRESH = ["p", "q", "r", "s"]
 
 
 def bounds(tier):
-    return {"depth": 3 if tier == "quick" else 5, "keys": KEYS, "pool": sorted(POOL) + sorted(NONDA), "start_states": 4}
+    return {"depth": 3 if tier == "quick" else 4, "keys": KEYS, "pool": sorted(POOL) + sorted(NONDA), "start_states": 4}
 
 
 def kind_of(labels):
@@ -398,7 +398,7 @@ SPACES = {"ds": Space()}
 
 
 def bfs(tier, ctx):
-    ctx.bfs("ds", bounds(tier)["depth"], time_cap=60 if tier == "quick" else 1500)
+    ctx.bfs("ds", bounds(tier)["depth"], time_cap=300 if tier == "quick" else 3000)
 
 
 def state_key(case):
